@@ -1,6 +1,6 @@
 package generator
 
-import "strings"
+import "strconv"
 
 func (g *Generator) ClientFile(cfg Config) GoFile {
 	return GoFile{
@@ -50,10 +50,5 @@ func (g *Generator) SpecFile(fileContent []byte) GoFile {
 }
 
 func encodeRawFileAsString(s string) string {
-	if strings.Contains(string(s), "\n") {
-		s = "`" + strings.ReplaceAll(string(s), "`", "`+\"`\"+`") + "`"
-	} else {
-		s = `"` + strings.ReplaceAll(string(s), `"`, `\"`) + `"`
-	}
-	return s
+	return strconv.Quote(s)
 }
